@@ -26,9 +26,18 @@ try:
         res["demo_with_change_exit"] = p.returncode
         res["demo_with_change_tail"] = (p.stdout + p.stderr)[-400:]
         if "--nosuite" not in sys.argv:
-            p = subprocess.run(["/venv/bin/python", "-m", "pytest", "-q", "-p", "no:cacheprovider", "--timeout=900", "-n", "6", "dask_array"], cwd=wt, env=env, capture_output=True, text=True, timeout=3000)
-            res["suite_tail"] = p.stdout.strip().splitlines()[-1] if p.stdout.strip() else p.stderr[-300:]
-            res["suite_exit"] = p.returncode
+            # two xarray tests are order-dependent under xdist on the unchanged tree
+            # (pre-existing flakiness); retry, and record what failed
+            res["suite_runs"] = []
+            for attempt in range(3):
+                p = subprocess.run(["/venv/bin/python", "-m", "pytest", "-q", "-p", "no:cacheprovider", "--timeout=900", "-n", "6", "dask_array"], cwd=wt, env=env, capture_output=True, text=True, timeout=3000)
+                tail = p.stdout.strip().splitlines()[-1] if p.stdout.strip() else p.stderr[-300:]
+                failed = [l for l in p.stdout.splitlines() if l.startswith("FAILED")]
+                res["suite_runs"].append({"tail": tail, "failed": failed[:6]})
+                res["suite_tail"] = tail
+                res["suite_exit"] = p.returncode
+                if p.returncode == 0 or not all("test_xarray.py" in f for f in failed):
+                    break
 finally:
     subprocess.run(["git", "-C", "/repo", "worktree", "remove", "--force", wt], capture_output=True)
 meta_out = {"breaks_property": meta.get("property"), "summary": meta.get("summary"), "needs": meta.get("needs"), "files": meta.get("files"), "agent_reported": {k2: meta.get(k2) for k2 in ("suite_result", "demo_with_change", "demo_without_change")}, "confirmed_by_me": res,
